@@ -4,12 +4,12 @@ package main
 // Every type here has a JSON form (for replay files) and a Coq form (for case files).
 
 import (
-	"sync"
 	"context"
 	"errors"
 	"fmt"
 	"reflect"
 	"strings"
+	"sync"
 
 	"github.com/mark3labs/flyt"
 )
@@ -51,10 +51,36 @@ type customErr struct {
 func (c customErr) Error() string { return c.note + ": " + c.inner.Error() }
 func (c customErr) Unwrap() error { return c.inner }
 
+// sliceErr: an error whose dynamic type is not comparable (== on it panics)
+type sliceErr struct {
+	parts []string
+	inner *UErr
+}
+
+func (s sliceErr) Error() string { return strings.Join(s.parts, " ") + ": " + s.inner.Error() }
+func (s sliceErr) Unwrap() error { return s.inner }
+
+// outerErr: the user's error is the OUTER one and wraps a cause of its own
+type outerErr struct {
+	ID    int
+	cause error
+}
+
+func (o *outerErr) Error() string { return fmt.Sprintf("user error %d: %v", o.ID, o.cause) }
+func (o *outerErr) Unwrap() error { return o.cause }
+
+var errForeignCause = errors.New("some lower-level cause")
+
 // realiseErr builds the Go error for user error id u; the flavour depends on u only.
 func realiseErr(u int) error {
 	base := &UErr{ID: u}
-	switch u % 5 {
+	switch u % 8 {
+	case 5:
+		return sliceErr{parts: []string{"not", "comparable"}, inner: base}
+	case 6:
+		return errors.Join(errors.New("joined with another error"), base)
+	case 7:
+		return &outerErr{ID: u, cause: errForeignCause}
 	case 0:
 		return base
 	case 1:
@@ -80,6 +106,10 @@ func classify(err error, ctx context.Context) *Err {
 	if errors.As(err, &ue) {
 		return &Err{K: "user", U: ue.ID}
 	}
+	var oe *outerErr
+	if errors.As(err, &oe) {
+		return &Err{K: "user", U: oe.ID}
+	}
 	// "matches the context's error": errors.Is against the error this very context reports,
 	// not against some context error
 	if ctx != nil && ctx.Err() != nil && errors.Is(err, ctx.Err()) {
@@ -100,12 +130,12 @@ type Val struct {
 	Shape string `json:"shape,omitempty"`
 }
 
-func vNil() Val         { return Val{T: "nil"} }
+func vNil() Val               { return Val{T: "nil"} }
 func vOther(shape string) Val { return Val{T: "other", Shape: shape} }
-func vTok(n int) Val    { return Val{T: "tok", N: n} }
-func vAct(a int) Val    { return Val{T: "act", N: a} }
-func vRes(v Val) Val    { return Val{T: "res", V: &v} }
-func vErrRes(u int) Val { return Val{T: "res", V: &Val{T: "nil"}, E: &Err{K: "user", U: u}} }
+func vTok(n int) Val          { return Val{T: "tok", N: n} }
+func vAct(a int) Val          { return Val{T: "act", N: a} }
+func vRes(v Val) Val          { return Val{T: "res", V: &v} }
+func vErrRes(u int) Val       { return Val{T: "res", V: &Val{T: "nil"}, E: &Err{K: "user", U: u}} }
 func vSl(isres bool, shape string, l []Val) Val {
 	if l == nil {
 		l = []Val{}
@@ -151,11 +181,11 @@ type AnyList []any
 
 // world holds per-scenario identity: token pointers and the run's store.
 type world struct {
-	toks  map[int]*Tok
-	store *flyt.SharedStore
+	toks   map[int]*Tok
+	store  *flyt.SharedStore
 	wmu    sync.Mutex
 	writes int
-	ctx   context.Context
+	ctx    context.Context
 }
 
 func newWorld() *world { return &world{toks: map[int]*Tok{}} }
@@ -273,6 +303,9 @@ func (w *world) realise(v Val) any {
 			return map[string]int(nil)
 		case "nilfunc":
 			return (func())(nil)
+		case "errval":
+			// a DATA value whose type happens to implement error
+			return &UErr{ID: 424242}
 		}
 	}
 	return struct{ unknown bool }{true}
